@@ -70,8 +70,9 @@ theorem mkMap_eq (l : List (Bytes × Term)) : mkMap l = (mkA l).map lift := by
 
 theorem fld_lift (m : List (Bytes × Term)) (k : Bytes) : fld (m.map lift) k = getA m k := mapGet_lift m k
 
-theorem fldInt_lift (m : List (Bytes × Term)) (k : Bytes) : fldInt (m.map lift) k = (getA m k).bind asInt := by
-  unfold fldInt; rw [fld_lift]
+theorem fldWith_lift (rd : Term → Option Int) (m : List (Bytes × Term)) (k : Bytes) :
+    fldWith rd (m.map lift) k = (getA m k).bind rd := by
+  unfold fldWith; rw [fld_lift]
 
 theorem structModule_lift (m : List (Bytes × Term)) :
     structModule (.map (m.map lift)) = (getA m kStruct).bind atomName := by
@@ -164,8 +165,42 @@ theorem getA_wire_reidx {l : List (Bytes × Term)} {ks : List (Bytes × Nat)} (h
   rw [← h] at e
   exact e
 
-theorem asInt_wireInt (i : Int) : asInt (wireInt i) = if InI32 i then some i else none := by
-  unfold wireInt InI32
-  by_cases h : -2147483648 ≤ i ∧ i ≤ 2147483647 <;> simp [h, asInt]
+theorem magVal_natDigits (n : Nat) : magVal (natDigits n) = n := by
+  induction n using Nat.strongRecOn with
+  | _ n ih =>
+    rw [natDigits]
+    split
+    · simp [magVal, *]
+    · simp only [magVal]
+      rw [ih (n / 256) (by omega)]
+      simp only [UInt8.toNat_ofNat']
+      omega
+
+/-- the field reader sees through the big-integer form the wire gives to wide integers -/
+theorem intOf_wireInt (i : Int) : intOf (wireInt i) = some i := by
+  unfold wireInt
+  split
+  · rfl
+  · simp only [intOf, magVal_natDigits, Option.some.injEq]
+    by_cases h : i < 0
+    · simp only [h, decide_true, if_true]; omega
+    · simp only [h, decide_false, Bool.false_eq_true, if_false]; omega
+
+theorem intIn_wireInt (lo hi i : Int) : intIn lo hi (wireInt i) = intIn lo hi (.int i) := by
+  unfold intIn; rw [intOf_wireInt]; rfl
+
+theorem intIn_int (lo hi i : Int) (h : lo ≤ i ∧ i ≤ hi) : intIn lo hi (.int i) = some i := by
+  simp [intIn, intOf, h]
+
+theorem prefix_append_drop (p s : Bytes) : (p ++ s).drop p.length = s := by simp
+
+theorem withoutElixir_withElixir (m : Bytes) : withoutElixir (withElixir m) = m := by
+  unfold withElixir withoutElixir stripPrefix
+  have : elixirDot.isPrefixOf (elixirDot ++ m) = true := by simp
+  simp only [this, if_true, Option.getD_some]
+  exact prefix_append_drop _ _
+
+theorem elixir_atom_not_nil (m : Bytes) : isNilAtom (.atom (withElixir m)) = false := by
+  simp [isNilAtom, atomName, withElixir, elixirDot, kNil]
 
 end Edp.Ex
